@@ -1,7 +1,8 @@
 (* C08 — Metric datapoints are stored and returned bit-exactly per series.
    Statements only; proofs in SigP.GorillaProofs / SigP.TsidProofs. *)
 From SigM Require Import Base Bits Gorilla Tsid.
-From SigP Require Import BaseProofs BitsProofs GorillaProofs TsidProofs.
+From SigG Require Import Gen.
+From SigP Require Import BaseProofs BitsProofs GorillaProofs TsidProofs GenC08.
 Open Scope Z_scope.
 
 (* The series codec (compressor.go -> bytes -> decompressor.go) returns every point with the
@@ -83,3 +84,48 @@ Example C08_tsid_same_keys_guard_satisfiable :
   let t2 : list tagp := [([104;111;115;116], [104;50]); ([100;99], [101;117])]%N in
   map fst t1 = map fst t2 /\ Forall tag_no_us t1 /\ Forall tag_no_us t2 /\ preimage [99%N] t1 <> preimage [99%N] t2.
 Proof. exact preimage_same_keys_guard_sat. Qed.
+
+(* ==== the Go compressor itself, REGENERATED from compressor.go on every run by gotrans (coq/gen/Gen.v) ====
+   gen_Compress / gen_finish thread the Compressor's integer fields as a tuple and return the calls made on
+   the bit writer as events; ev_bits reads an event as bits (writeBit b = [b]; writeBits(u, n) = the n low
+   bits of u, most significant first; flush = byte padding, done by pack). *)
+
+(* the hand-written counting loops of compressor.go are the leading / trailing zero counts of the 64-bit word *)
+Theorem C08_code_leardingZeros_is_model : forall x : N, (x < 2 ^ 64)%N ->
+  gen_leardingZeros (Z.of_N x) = Z.of_nat (lz (N2bits 64 x)).
+Proof. exact gen_leardingZeros_is_lz. Qed.
+Print Assumptions C08_code_leardingZeros_is_model.
+
+Theorem C08_code_trailingZeros_is_model : forall x : N, (x < 2 ^ 64)%N ->
+  gen_trailingZeros (Z.of_N x) = Z.of_nat (tz (N2bits 64 x)).
+Proof. exact gen_trailingZeros_is_tz. Qed.
+Print Assumptions C08_code_trailingZeros_is_model.
+
+(* one call of Compress from ANY encoder state: same bits as the model, same fields afterwards *)
+Theorem C08_code_Compress_is_model : forall (s : est) (t v : N),
+  est_ok s -> (t < 2 ^ 32)%N -> (v < 2 ^ 64)%N ->
+  let '(_, st', evs) := gen_Compress (abs_est s) (Z.of_N t) (Z.of_N v) in
+  let '(bits, s') := compress s t v in
+  evs_bits evs = bits /\ st' = abs_est s' /\ est_ok s'.
+Proof. exact gen_Compress_is_model. Qed.
+Print Assumptions C08_code_Compress_is_model.
+
+Theorem C08_code_finish_is_model : forall s : est,
+  let '(_, st', evs) := gen_finish (abs_est s) in
+  evs_bits evs = finish s /\ st' = abs_est s.
+Proof. exact gen_finish_is_model. Qed.
+Print Assumptions C08_code_finish_is_model.
+
+(* every series: header, all points through the regenerated Compress, the regenerated finish *)
+Theorem C08_code_encoder_is_model : forall (hdr : N) (pts : list (N * N)),
+  (hdr < 2 ^ 32)%N -> Forall (fun p => (fst p < 2 ^ 32)%N /\ (snd p < 2 ^ 64)%N) pts ->
+  gen_encode_bits hdr pts = encode_bits hdr pts.
+Proof. exact gen_encode_bits_is_model. Qed.
+Print Assumptions C08_code_encoder_is_model.
+
+(* hence the round trip holds for the bytes of the regenerated compressor *)
+Theorem C08_code_encoder_roundtrip : forall (hdr : N) (pts : list (N * N)),
+  series_ok hdr pts -> (hdr < 2 ^ 32)%N -> Forall (fun p => (fst p < 2 ^ 32)%N /\ (snd p < 2 ^ 64)%N) pts ->
+  decode (pack (gen_encode_bits hdr pts)) = pts.
+Proof. exact gen_encoder_roundtrip. Qed.
+Print Assumptions C08_code_encoder_roundtrip.
